@@ -121,14 +121,33 @@ func (g *DirectedTargetGraph) GetDependencies(target model.BuildNode) []model.Bu
 	return g.inEdges[target.GetLabel()]
 }
 
+// GetTargetDependencies returns the targets that the given node directly depends on.
+// A dependency on an alias is a dependency on the target that the alias points to.
 func (g *DirectedTargetGraph) GetTargetDependencies(node model.BuildNode) []*model.Target {
 	var targets []*model.Target
 	for _, dependency := range g.GetDependencies(node) {
-		if target, ok := dependency.(*model.Target); ok {
+		if target := g.resolveTarget(dependency); target != nil {
 			targets = append(targets, target)
 		}
 	}
 	return targets
+}
+
+// resolveTarget follows aliases until it reaches a target.
+// Returns nil if the alias chain does not end in a target of this graph.
+func (g *DirectedTargetGraph) resolveTarget(node model.BuildNode) *model.Target {
+	// an alias chain cannot be longer than the number of nodes
+	for hops := 0; hops <= len(g.nodes); hops++ {
+		switch typedNode := node.(type) {
+		case *model.Target:
+			return typedNode
+		case *model.Alias:
+			node = g.nodes[typedNode.Actual]
+		default:
+			return nil
+		}
+	}
+	return nil
 }
 
 func (g *DirectedTargetGraph) GetDependants(target model.BuildNode) []model.BuildNode {
